@@ -17,8 +17,8 @@ from ..harness import Session, canon_gateway, drive, ScriptExhausted
 BIG = "12345678901234567890"
 PAYLOADS_FULL = ["", "abc", "1e999", "inf", "nan", "-1", "3.7", BIG, "١", " 5", "2.2.0", "junk", "é", "\x00", "1;2", "0x10", "1_0", "-0", "1e3", "٣٫٥"]
 LONGP = "y" * 300
-PAYLOADS_FULL += [LONGP, "\udc80", "9" * 400, "1" + "0" * 5000]
-PAYLOADS_QUICK = ["", "abc", "inf", "nan", "-1", "3.7", "junk", "é", "2.2.0", LONGP, "\udc80"]
+PAYLOADS_FULL += [LONGP, "\udc80", "9" * 400, "1" + "0" * 5000, "latest", "dev", "stable", "beta", "0xFF", "0x16", "2024.1", "10.0", "{0}", "%s"]
+PAYLOADS_QUICK = ["", "abc", "inf", "nan", "-1", "3.7", "junk", "é", "2.2.0", LONGP, "\udc80", "latest", "0x16", "{0}"]
 PROBE = [(9, 255, 0, 0, 17, "2.0"), (9, 3, 0, 0, 3, "d"), (9, 3, 1, 0, 2, "on")]
 
 
@@ -68,6 +68,19 @@ def apply_setup(s: Session, ev) -> None:
         n = s.gateway.nodes.get(ev[1])
         if n is not None:
             n.sleeping = True
+    elif ev[0] == "restore":
+        # part of the registry comes from a persistence file (real Persistence.load): node 1 with children 0 and 4 only,
+        # the gateway node with a version string, a sleeping node 9
+        from aiomysensors.model.node import Child, Node
+        from aiomysensors.persistence import Persistence
+
+        from .. import pers
+
+        nodes = {0: Node(0, 18, "2.1.1"), 1: Node(1, 17, "2.0", children={0: Child(0, 6, values={0: "21.5"}), 4: Child(4, 3)}, battery_level=50), 9: Node(9, 17, "1.4", sleeping=True)}
+        kind, val, vfs = pers.save_nodes(nodes)
+        assert kind == "ok", val
+        kind, val = pers.run(Persistence(s.gateway.nodes, pers.PATH).load, vfs)
+        assert kind == "ok", val
     elif ev[0] == "many":
         # a sleeping node with many parked commands: 12 set keys and 12 internal types
         for c in range(3):
@@ -108,6 +121,9 @@ def states(version, depth: int) -> list:
     wt = R.wake_type(version) if version else None
     base = [["line", "1;255;0;0;17;2.0"], ["line", f"1;255;3;0;{wt};0"] if wt is not None else ["sleepflag", 1], ["many", 1]]
     out.append(base)
+    # registries that were (partly) restored from a persistence file, alone and followed by wire traffic
+    out.append([["restore"]])
+    out.append([["restore"], ["line", "1;3;0;0;3;d"], ["send", [9, 3, 1, 0, 2, "x"]]])
     return out
 
 
